@@ -72,17 +72,17 @@ Definition response_message (r : tx_response) (content_length : N) : str :=
 
 (* tx_request *)
 Record tx_request := mk_tx_request
-  { rq_method : str; rq_uri : str; rq_major : byte; rq_minor : byte; rq_headers : str }.
+  { tq_method : str; tq_uri : str; tq_major : byte; tq_minor : byte; tq_headers : str }.
 
 Definition request_line_string (r : tx_request) : str :=
-  rq_method r ++ [32] ++ rq_uri r ++ [32] ++ http_version (rq_major r) (rq_minor r) ++ CRLF.
+  tq_method r ++ [32] ++ tq_uri r ++ [32] ++ http_version (tq_major r) (tq_minor r) ++ CRLF.
 
 Definition request_adds_content_length (r : tx_request) : bool :=
-  negb (contains hf_HEADER_CONTENT_LENGTH (rq_headers r))
-  && negb (contains hf_HEADER_TRANSFER_ENCODING (rq_headers r)).
+  negb (contains hf_HEADER_CONTENT_LENGTH (tq_headers r))
+  && negb (contains hf_HEADER_TRANSFER_ENCODING (tq_headers r)).
 
 Definition request_message (r : tx_request) (content_length : N) : str :=
-  request_line_string r ++ rq_headers r
+  request_line_string r ++ tq_headers r
   ++ (if request_adds_content_length r then content_length_line content_length else [])
   ++ CRLF.
 
